@@ -43,6 +43,7 @@ def non_panic_leaves(t):
 def run(chk, tier):
     prog, info = common.program("all")
     common.note_extraction(chk, info, prog)
+    common.vacuity(chk, ['VN-bits', 'R-TABLE', 'R-WIRE'])
     chk.explanation = ("R-LAYOUT: the 60 halfwords of ICD table IV row by row (signedness included). Value numbering reduces each coded accessor to a decision "
                        "table evaluated at each documented code, each flag accessor to a per-bit provenance vector, the scaled accessors to canonical terms, "
                        "and get_alarm_message to a partition of u16 whose every cell in 0..=800 yields a definition carrying the cell's own code and every "
